@@ -20,3 +20,5 @@ extern void (*ares_verif_yield)(void);
 #include <arpa/inet.h>
 #include <netinet/in.h>
 #include <sys/socket.h>
+#include <netdb.h>
+#include <climits>
